@@ -94,6 +94,53 @@ func ruleStateLevel() check.Rule {
 							"variable %q declared at %s is written (%s) inside a %s: state is shared between subscriptions/applications of one operator value",
 							w.Var.Name(), where, w.How, crossed)
 					}
+					// stateful objects created at an outer level and used inside the closure
+					seenObj := map[*types.Var]bool{}
+					ast.Inspect(lit.Body, func(n ast.Node) bool {
+						if l, ok := n.(*ast.FuncLit); ok && l != lit {
+							return false
+						}
+						id, ok := n.(*ast.Ident)
+						if !ok {
+							return true
+						}
+						v, ok := info.Uses[id].(*types.Var)
+						if !ok || v.IsField() || seenObj[v] {
+							return true
+						}
+						di := -1
+						for i := len(chain) - 1; i >= 0; i-- {
+							if chain[i].Pos() <= v.Pos() && v.Pos() < chain[i].End() {
+								di = i
+								break
+							}
+						}
+						if di < 0 || di == len(chain)-1 {
+							return true
+						}
+						crossed := false
+						for i := di + 1; i < len(chain); i++ {
+							if mult[i] {
+								crossed = true
+							}
+						}
+						if !crossed {
+							return true
+						}
+						what := statefulCreation(m, info, v)
+						if what == "" {
+							return true
+						}
+						seenObj[v] = true
+						key := fmt.Sprintf("%s/obj-%s", wkey, v.Name())
+						c.Inc("state_writes_checked", 1)
+						if why, hot := hotByDefinition[declKey]; hot {
+							c.OK(key, id.Pos(), "exempt: %s", why)
+							return true
+						}
+						c.Report(c.ArmedPkg(p.PkgPath), key, id.Pos(), "%q holds %s created at %s and is used inside a closure that runs more often: every subscription/application shares that one mutable object", v.Name(), what, chainKey(m, p, chain[:di+1], scs))
+						return true
+					})
 					c.Inc("closures_scanned", 1)
 				}
 			}
@@ -330,4 +377,57 @@ func C12() *check.Property {
 		Floors:      map[string]int{"closures_scanned": 300, "application_literals": 100, "param_observables_subscribed": 90},
 		Controls:    map[string]string{"zz_verif_controls_c12.go": roControl(controlsC12)},
 	}
+}
+
+// statefulCreation reports what mutable library object v was created as (a subscription, a
+// subject, a subscriber, a channel, a mutex/once/map of package sync or xsync), or "".
+func statefulCreation(m *model.Model, info *types.Info, v *types.Var) string {
+	// parameters hold objects supplied by the caller (a channel to read, a limiter, a writer):
+	// sharing them is the caller's choice
+	if isParamVar(m, v) {
+		return ""
+	}
+	if isSyncSafeType(v.Type()) {
+		if _, isChan := v.Type().Underlying().(*types.Chan); isChan {
+			return "a channel"
+		}
+		return "a synchronisation object (" + v.Type().String() + ")"
+	}
+	for _, d := range m.Defs[v] {
+		call, ok := ast.Unparen(d.Expr).(*ast.CallExpr)
+		if !ok {
+			continue
+		}
+		cl := model.Callee(info, call)
+		if cl == nil {
+			continue
+		}
+		switch {
+		case cl == m.Obj.NewSubscription:
+			return "a Subscription"
+		case m.Obj.SubscriberCtors[cl] != model.ModeUnknown || cl.Name() == "NewSubscriberWithConcurrencyMode":
+			return "a Subscriber"
+		case cl.Pkg() != nil && cl.Pkg().Path() == ro && len(cl.Name()) > 7 && cl.Name()[:3] == "New" && cl.Name()[len(cl.Name())-7:] == "Subject":
+			return "a Subject"
+		}
+	}
+	return ""
+}
+
+var paramCache map[*types.Var]bool
+
+func isParamVar(m *model.Model, v *types.Var) bool {
+	if paramCache == nil {
+		paramCache = map[*types.Var]bool{}
+		for _, p := range m.Pkgs {
+			for _, fn := range funcNodes(p) {
+				for _, prm := range model.FlattenParams(p.TypesInfo, funcType(fn).Params) {
+					if prm != nil {
+						paramCache[prm] = true
+					}
+				}
+			}
+		}
+	}
+	return paramCache[v]
 }
